@@ -799,7 +799,12 @@ fn eval_in(c: &CliCase, st: &mut RunStats, dir: &Path, out: &mut Vec<Violation>)
                         let grab = |tag: &str| so.lines().find_map(|l| l.trim().strip_prefix(tag).and_then(|x| x.trim().parse::<u64>().ok()));
                         (grab("Video frames:"), grab("Audio frames:"))
                     };
-                    if rv != Some(plan.n_video) || ra != Some(plan.n_audio) {
+                    // "the frame counts it reports match": a count that is reported in a form this harness does not
+                    // know is not judged (the output format is not part of the property); one that is found must match
+                    if rv.is_none() || ra.is_none() {
+                        st.count("mux_counts_not_located", 1);
+                    }
+                    if rv.map(|x| x != plan.n_video).unwrap_or(false) || ra.map(|x| x != plan.n_audio).unwrap_or(false) {
                         out.push(v("C20", "reported-counts", if c.json { "json" } else { "text" }, format!("reported video/audio frames {:?}/{:?}, inputs were {}/{}; stdout: {}", rv, ra, plan.n_video, plan.n_audio, so.chars().take(200).collect::<String>())));
                     }
                     st.nontrivial = Some(ah.finish());
